@@ -2,6 +2,7 @@
   C12 — traffic selectors are only ever narrowed and the mode must match.
 -/
 import PyIkev2.Proofs.Selectors
+import PyIkev2.Proofs.HandlersChild
 
 namespace PyIkev2.Props.C12
 open PyIkev2 PyIkev2.Impl
@@ -75,15 +76,9 @@ theorem c12_responder_narrows (tsis tsrs : List TS) (protect : List Policy) (i :
     ∃ tsi ∈ tsis, ∃ tsr ∈ tsrs, ∃ c ∈ protect, protect[i]? = some c ∧
       tsSubset ctsi tsi = true ∧ tsSubset ctsr tsr = true ∧
       tsSubset ctsi c.peerTs = true ∧ tsSubset ctsr c.myTs = true := by
-  unfold getIpsecConf at h
-  obtain ⟨tsi, htsi, h1⟩ := firstSome_some _ _ _ h
-  obtain ⟨tsr, htsr, h2⟩ := firstSome_some _ _ _ h1
-  obtain ⟨c, hc, hidx, _, hcase⟩ := matchPolicies_some tsi tsr protect 0 i ctsr ctsi h2
-  refine ⟨tsi, by simpa using htsi, tsr, by simpa using htsr, c, hc, by simpa using hidx, ?_⟩
-  rcases hcase with ⟨a, b, rfl, rfl⟩ | ⟨a, b, rfl, rfl⟩
-  · exact ⟨tsSubset_refl _, tsSubset_refl _, a, b⟩
-  · exact ⟨a, b, tsSubset_refl _, tsSubset_refl _⟩
+  exact getIpsecConf_narrows tsis tsrs protect i ctsr ctsi h
 
+/-- … and when nothing matches, no offered pair and no policy entry contain one another: the request is refused -/
 theorem c12_refused_iff_no_policy (tsis tsrs : List TS) (protect : List Policy)
     (h : getIpsecConf tsis tsrs protect = none) :
     ∀ tsi ∈ tsis, ∀ tsr ∈ tsrs, ∀ c ∈ protect,
@@ -131,5 +126,42 @@ example : tsA.nonEmpty ∧ tsSubset tsA tsB = true ∧ tsSubset tsB tsA = false 
   refine ⟨⟨by decide, by decide⟩, by decide, by decide⟩
 example : getNetwork 32 (2 ^ 4 * 10485761) (2 ^ 4 * 10485761 + 2 ^ 4 - 1) = (167772176, 28) := by decide
 example : getIpsecConf [tsA] [tsB] [{ myTs := tsB, peerTs := tsB, mode := 1 }] = some (0, tsB, tsA) := by decide
+
+/-! ### in the model of the real handlers (Model/Handlers.lean)
+
+  The theorems above are about the pure functions; these are about the handlers that call them — the placement of the calls,
+  the order of the checks, what is done with their results, for every request whatsoever. -/
+
+/-- **responder**: whatever request a handler is run on (any exchange type, any payloads, new CHILD_SA, rekey, IKE_AUTH),
+    in whatever state, with whatever oracle values: every CHILD_SA record the IKE_SA tracks afterwards was tracked before, or
+    its mode is the mode of a policy entry, which is the mode the request asked for (USE_TRANSPORT_MODE present ⇔ transport);
+    its local selector lies inside that entry's local selector and inside a TSr the request offered; its remote selector inside
+    the entry's remote selector and inside an offered TSi -/
+theorem c12_concrete_responder_narrows_and_mode (now : Nat) (request : Msg) (h : HM HRes) (hh : requestHandler now request = some h)
+    (me : XSa) (succ : Option XSa) (tape : Tape) :
+    ∀ k ∈ (runH h me succ tape).me.ext.kids, k ∈ me.ext.kids ∨
+      ∃ pol ∈ me.ext.conf.protect, ∃ a b : TS, k.tsi = [a] ∧ k.tsr = [b] ∧ k.mode = pol.mode ∧
+        pol.mode = (if (getNotifies request nUSE_TRANSPORT_MODE true).isEmpty then 1 else 0) ∧
+        tsSubset a pol.myTs = true ∧ tsSubset b pol.peerTs = true ∧
+        (∃ tsr, payTS request ptTSr true = .ok tsr ∧ ∃ x ∈ tsr, tsSubset a x = true) ∧
+        (∃ tsi, payTS request ptTSi true = .ok tsi ∧ ∃ y ∈ tsi, tsSubset b y = true) := by
+  intro k hk
+  rcases requestHandler_kids now request h hh me succ tape k hk with h1 | ⟨pol, hp, a, b, h1, h2, h3, h4, h5, h6, h7, h8, _⟩
+  · exact Or.inl h1
+  · exact Or.inr ⟨pol, hp, a, b, h1, h2, h3, h4, h5, h6, h7, h8⟩
+
+/-- **initiator**: whatever response a handler is run on (any exchange type, any payloads, honest or not), with whatever
+    oracle values: every CHILD_SA record the IKE_SA tracks afterwards was tracked before, or it is the outstanding offer `cr`
+    narrowed — the mode it asked for, which is also the mode the response carries; one selector per side, each contained in a
+    selector it offered; its own inbound SPI.  A response that widens a selector or changes the mode installs nothing. -/
+theorem c12_concrete_initiator_never_widens (now : Nat) (response : Msg) (h : HM HRes) (hh : responseHandler now response = some h)
+    (me : XSa) (succ : Option XSa) (tape : Tape) (cr : Child) (hcr : me.ext.creating = some cr) :
+    ∀ k ∈ (runH h me succ tape).me.ext.kids, k ∈ me.ext.kids ∨
+      (k.mode = cr.mode ∧ cr.mode = (if (getNotifies response nUSE_TRANSPORT_MODE true).isEmpty then 1 else 0) ∧ k.inSpi = cr.inSpi ∧
+       ∃ a b : TS, k.tsi = [a] ∧ k.tsr = [b] ∧ (∃ x ∈ cr.tsi, tsSubset a x = true) ∧ (∃ y ∈ cr.tsr, tsSubset b y = true)) := by
+  intro k hk
+  rcases responseHandler_kids now response h hh me succ tape cr hcr k hk with h1 | ⟨h1, h2, h3, h4, _⟩
+  · exact Or.inl h1
+  · exact Or.inr ⟨h1, h2, h3, h4⟩
 
 end PyIkev2.Props.C12
